@@ -38,6 +38,9 @@ func generated(L *Loaded, fn *ssa.Function) bool {
 }
 
 var nondetPkgs = map[string]bool{"math/rand": true, "math/rand/v2": true, "crypto/rand": true, "os": true, "runtime": true, "os/exec": true, "net": true, "net/http": true,
+	// process / build / machine information
+	"runtime/debug": true, "runtime/pprof": true, "runtime/metrics": true, "runtime/trace": true, "debug/buildinfo": true, "os/user": true, "os/signal": true,
+	"syscall": true, "hash/maphash": true, "plugin": true,
 	// libraries that run the caller's closures on other goroutines: which closure finishes (or fails) first depends on scheduling
 	"golang.org/x/sync/errgroup": true, "golang.org/x/sync/singleflight": true, "golang.org/x/sync/semaphore": true}
 
@@ -57,7 +60,7 @@ var nondetFuncs = map[string]bool{
 	"context.WithTimeout": true, "context.WithDeadline": true, "context.AfterFunc": true,
 	// iteration order of a Go map behind a library call
 	"maps.Keys": true, "maps.Values": true, "maps.All": true, "golang.org/x/exp/maps.Keys": true, "golang.org/x/exp/maps.Values": true,
-	"(reflect.Value).MapKeys": true, "(reflect.Value).MapRange": true,
+	"(reflect.Value).MapKeys": true, "(reflect.Value).MapRange": true, "(reflect.Value).Pointer": true, "(reflect.Value).UnsafeAddr": true, "(reflect.Value).UnsafePointer": true,
 }
 
 func runDiscipline(s *Session, prop string, verified map[string]bool) *DisciplineResult {
@@ -97,6 +100,13 @@ func runDiscipline(s *Session, prop string, verified map[string]bool) *Disciplin
 					bad = append(bad, "starts a goroutine at "+s.L.Fset.Position(i.Pos()).String())
 				case *ssa.Select:
 					bad = append(bad, "select at "+s.L.Fset.Position(i.Pos()).String())
+				case *ssa.Convert:
+					// the address of a variable used as a number (differs from process to process)
+					if xb, ok := i.X.Type().Underlying().(*types.Basic); ok && xb.Kind() == types.UnsafePointer {
+						if rb, ok := i.Type().Underlying().(*types.Basic); ok && rb.Kind() == types.Uintptr {
+							bad = append(bad, "converts a pointer to an integer at "+s.L.Fset.Position(i.Pos()).String())
+						}
+					}
 				case *ssa.BinOp:
 					// floating point in consensus code: Go may fuse x*y+z on some architectures, so nodes can disagree in the last bit
 					if b, ok := i.X.Type().Underlying().(*types.Basic); ok && b.Info()&types.IsFloat != 0 && (i.Op == token.MUL || i.Op == token.ADD || i.Op == token.SUB || i.Op == token.QUO) {
